@@ -372,6 +372,16 @@ pub fn fault_events(seed: u64, thorough: bool, dir: &str) -> Vec<Value> {
         }
         if annz > 0 { sem("A.colptr non-monotone", "Struct", &|x| { let l = x["A"]["colptr"].as_array().unwrap().len(); if l >= 2 { let last = x["A"]["colptr"][l - 1].clone(); x["A"]["colptr"][0] = last; } }); }
         sem("A.colptr first nonzero", "Struct", &|x| { x["A"]["colptr"][0] = json!(1); });
+        // row indices of the LAST column repeated / out of order (in range): not a canonical encoding
+        {
+            let cp: Vec<u64> = v["A"]["colptr"].as_array().unwrap().iter().map(|x| x.as_u64().unwrap()).collect();
+            let l = cp.len();
+            if l >= 2 && cp[l - 1] - cp[l - 2] >= 2 {
+                let (a, b) = (cp[l - 2] as usize, cp[l - 1] as usize);
+                sem("A.rowval last column repeated", "Struct", &|x| { let r = x["A"]["rowval"][b - 1].clone(); x["A"]["rowval"][b - 2] = r; });
+                sem("A.rowval last column unsorted", "Struct", &|x| { let r0 = x["A"]["rowval"][a].clone(); let r1 = x["A"]["rowval"][b - 1].clone(); x["A"]["rowval"][a] = r1; x["A"]["rowval"][b - 1] = r0; });
+            }
+        }
         // the last column pointer lowered by one: still monotone, still starts at 0, but no longer the number of stored entries
         if annz > 0 { sem("A.colptr last lowered", "Struct", &|x| { let l = x["A"]["colptr"].as_array().unwrap().len(); let v = x["A"]["colptr"][l - 1].as_u64().unwrap(); x["A"]["colptr"][l - 1] = json!(v - 1); }); }
         if v["P"]["rowval"].as_array().unwrap().len() > 0 { sem("P.colptr last lowered", "Struct", &|x| { let l = x["P"]["colptr"].as_array().unwrap().len(); let v = x["P"]["colptr"][l - 1].as_u64().unwrap(); x["P"]["colptr"][l - 1] = json!(v - 1); }); }
